@@ -380,7 +380,7 @@ pub fn run(tier: Tier, seed: u64) -> i32 {
     run.shards = 2;
     run.shrink_iters = 40;
     if !run.failed() {
-        run.random("bash", tier.pick(90, 3_000), 500, case_bash);
+        run.random("bash", tier.pick(90, 1_200), 500, case_bash);
     }
     let code = run.finish();
     cleanup_scratch();
